@@ -304,6 +304,18 @@ def main(prop, tier, seed):
                     if got[0] != "ok":
                         run.violation(dict(engine="validate", clause="valid-refused", op="definition", route="api"),
                                       "[valid-refused] well-formed definition '%s' in a %s model: %s %s" % (dd, fam, got[0], got[1]), dict(ini=render(secs)))
+            # the order of the entries of a section carries no meaning: a formula may call one that is defined further down
+            for fam in TARGETS:
+                secs = base(fam)
+                pf = sec(secs, "Potential-Form")[1]
+                pf.reverse()
+                setv(secs, "Pair", "Al-Al", "g 1.5 2.0")
+                for route, got in (("api", run_api(render(secs))), ("cli", run_cli_file(render(secs), d))):
+                    run.evaluations += 1
+                    run.replayed += 1
+                    if got[0] != "ok":
+                        run.violation(dict(engine="validate", clause="valid-refused", op="forms-reversed", route=route),
+                                      "[valid-refused] %s model whose [Potential-Form] entries are listed caller first: %s %s" % (fam, got[0], got[1]), dict(ini=render(secs)))
             # ---- the models the repository ships (manual examples, quick start, tests' resources) are well-formed: each must be
             # accepted as it stands, through the command line and the Python API
             import glob
